@@ -268,7 +268,7 @@ namespace AIToolbox::MDP {
             if ( it == std::end(aNode.children) ) {
                 // Touch node to create it
                 aNode.children[s1Key];
-                futureRew = rollout(model_, s1, maxDepth_ - depth + 1, rand_);
+                futureRew = rollout(model_, s1, maxDepth_ - depth - 1, rand_);
             }
             else {
                 // Since most memory is allocated on the leaves,
